@@ -287,6 +287,12 @@ kf("C13", "C13-dce-after-inline", "dce applied to an inlined module removes or r
 kf("C13", "C13-mem2reg-store-before-loop", "mem2reg loses the value a local holds when a loop is entered if the loop's continuing block also stores to that local: `a = a * 31u + 1u; loop { ...; break; continuing { a = a * 31u + 3u; break if c; } } use(a)` reads a wrong value after the loop even when the continuing block never runs; reached also through the DXIL pipeline",
    ["C13|behaviour|mem2reg|different-result|F2L/*/l", "C13|behaviour|dxil-pipeline|different-result|F2L/*/l", "C13|behaviour|mem2reg|different-result|F2L/*/el", "C13|behaviour|dxil-pipeline|different-result|F2L/*/el"])
 
+kf("C13", "C13-mem2reg-switch-break", "mem2reg ignores a `break` that leaves a switch clause early: for `switch x { default: { if c { } else { break; } a = a * 31u + 1u; } } use(a)` the value merged after the switch is the clause's last store even on the path that left through the `break`, where that expression (or the phi built from it) was never evaluated - the module no longer executes (\"used before it was emitted\")",
+   ["C13|behaviour|mem2reg|malformed-output:*|F2L/*/bs", "C13|behaviour|mem2reg|malformed-output:*|F2L/*/es"])
+
+kf("C13", "C13-dce-unmarks-statement-operand", "dce unmarked an expression that fed the condition of an empty `if` although a surviving statement used it directly (`let c0 = inp[gi].x; switch c0 { default: { a = ...; } } if (c0 & 1u) == 1u { }`): the Emit range of the load was dropped and the switch selector referred to an expression that is never evaluated",
+   ["C13|behaviour|dce|malformed-output:*|F2L/entrylocal/*e*s", "C13|ill-formed|dce|emit-cover:*|F2L/entrylocal/*e*s", "C13|ill-formed|dce|emit-dominates:*|F2L/entrylocal/*e*s"], "fixed:1002bd3")
+
 
 # C13 x F13s (operation sequences on a function-local struct): failure classes of the unchanged tree, recorded
 # mechanically per (pass, failure class, wrapping, set of operations) in kf_c13_f13s_keys.json
